@@ -19,6 +19,16 @@ Theorem bitset_string_injective : forall n a b, good_bits n a -> good_bits n b -
 Proof. exact bitset_string_injective_lemma. Qed.
 Print Assumptions bitset_string_injective.
 
+(* markFileReachableForCodeSplitting: bit j of a file is set exactly when the file is
+   reachable from entry point j over live files (import() of other entry points not followed) *)
+Theorem bits_iff_reachable : forall g r f j, split g = Some r ->
+  let a := r_analysis r in
+  (j < length (a_entries a))%nat ->
+  (HasBit (file_bits a f) j = true <->
+   path (split_succ g (a_entries a)) (is_live a) (nth j (a_entries a) O) f).
+Proof. exact bits_iff_reachable_all. Qed.
+Print Assumptions bits_iff_reachable.
+
 (* every live reachable file is in exactly one chunk, and chunks hold nothing else:
    with ES module semantics a module body therefore exists once per program *)
 Theorem chunks_partition : forall g r, split g = Some r ->
